@@ -109,6 +109,10 @@ type VerifInvocation struct {
 	LastOperationStarted time.Time
 	ExecutingWorkers     int
 	DirectlyQueued       int
+	// Keys of the children in queuedChildren, in heap order, and their
+	// recorded first priorities (diagnostics only).
+	QueuedChildren           []string
+	QueuedChildrenPriorities []int32
 }
 
 // VerifSnapshot is a consistent view of the scheduler's state.
@@ -155,13 +159,21 @@ func (bq *InMemoryBuildQueue) VerifSnapshotUnlocked() *VerifSnapshot {
 		s.Queues = append(s.Queues, q)
 		var walk func(i *invocation)
 		walk = func(i *invocation) {
+			var qc []string
+			var qp []int32
+			for _, c := range i.queuedChildren {
+				qc = append(qc, string(c.invocationKeys[len(c.invocationKeys)-1]))
+				qp = append(qp, c.firstQueuedOperationPriority)
+			}
 			s.Invocations = append(s.Invocations, VerifInvocation{
-				Queue:                q.Key,
-				Path:                 verifKeys(i.invocationKeys),
-				ID:                   uintptr(unsafe.Pointer(i)),
-				LastOperationStarted: i.lastOperationStarted,
-				ExecutingWorkers:     len(i.executingWorkers),
-				DirectlyQueued:       len(i.queuedOperations),
+				QueuedChildren:           qc,
+				QueuedChildrenPriorities: qp,
+				Queue:                    q.Key,
+				Path:                     verifKeys(i.invocationKeys),
+				ID:                       uintptr(unsafe.Pointer(i)),
+				LastOperationStarted:     i.lastOperationStarted,
+				ExecutingWorkers:         len(i.executingWorkers),
+				DirectlyQueued:           len(i.queuedOperations),
 			})
 			for _, c := range i.children {
 				walk(c)
